@@ -15,7 +15,7 @@ import os
 import re
 
 from vlib.hostlist import (HL, Cli, WFGen, LIMIT, hx, unhx, parse_probe, parse_spec, same_answer, feat_big,
-                           feat_longplain, feat_first_group_complete, feat_d16, gen_malformed, exhaustive, names_field,
+                           feat_longplain, feat_first_group_complete, feat_d16, gen_malformed, exhaustive, names_field, U64,
                            impl_tokens,
                            VERIF_CORPUS)
 
@@ -47,6 +47,8 @@ def judge(ctx, s, sp, impl, model, origin):
         ctx.disagreement("hl model vs hostlist.c (probe)", "text %r: impl `%s` model `%s`" %
                          (s[:200], impl[:300], model[:300]), case)
     p = parse_probe(impl)
+    if p["kind"] == "skipped":
+        return
     v = parse_spec(sp)
     big = feat_big(s)
     if p["kind"] == "crash":
@@ -91,9 +93,16 @@ def judge(ctx, s, sp, impl, model, origin):
         return
     # the spec finds nothing wrong
     if v["note64"]:
-        if p["kind"] == "ok" and (p["next"] != v["hosts1"] or p["count"] != v["n1"]):
-            ctx.offender("overflow64-clamped", "a bound >= 2^64 is silently replaced by 2^64-1 (%d hosts listed)" %
-                         p["count"], case)
+        # a bound of 2^64-1 or beyond in a range within the limits: refusing it is admissible, listing other
+        # hosts than the ones typed is not (hostlist_shift prints numbers in full, so it is the sequence compared)
+        if p["kind"] == "ok" and (p["shift"] != v["hosts1"] or p["count"] != v["n1"]):
+            beyond = any(int(m) > U64 - 1 for m in re.findall(rb"[0-9]{20,}", s))
+            if beyond:
+                ctx.offender("overflow64-clamped", "a bound >= 2^64 is silently replaced by 2^64-1 (%d hosts listed)" %
+                             p["count"], case)
+            else:
+                ctx.offender("ulongmax-mismatch:bound>=2^64-1", "a range reaching 2^64-1 is accepted but lists other "
+                             "hosts than typed (%d counted)" % p["count"], case)
         return
     if p["kind"] == "null":
         ctx.offender("valid-rejected:%s:%s" % (p["errno"], p["fatal"]) + (":bound>=2^64-1" if big else ""),
@@ -170,6 +179,7 @@ def run(ctx):
             rep = json.load(open(ctx.replay))
             if rep["case"].get("origin") == "cli":
                 cli_check(ctx, hl, dist, cov, only=unhx(rep["case"]["expr_hex"]))
+    dist["probed-variant"] = hl.probed()
     cov["distribution"] = dist
     cov["traces_validated_against_impl"] = cov["evaluations"]
     for b in ctx.broken[:4]:
